@@ -59,7 +59,10 @@ class ConstantFoldInterpPattern(RewritePattern):
                 for operand in op.operands
             )
             results = self.interpreter.run_op(op, args)
-        except InterpretationError:
+        except (InterpretationError, AssertionError, ArithmeticError, MemoryError):
+            # The interpreter cannot evaluate the operation on these operands (missing
+            # implementation, division by zero, negative or huge shift amount, ...):
+            # leave the operation in place.
             return
 
         new_ops: list[Operation] = []
@@ -77,7 +80,8 @@ class ConstantFoldInterpPattern(RewritePattern):
     def convert_to_attr(self, value: Any, value_type: Attribute) -> Attribute | None:
         match (value, value_type):
             case int(), IntegerType():
-                return IntegerAttr(value, value_type)
+                # The interpreter's integers are not always wrapped to the bitwidth
+                return IntegerAttr(value, value_type, truncate_bits=True)
             case _:
                 return None
 
